@@ -33,7 +33,9 @@ partial def loop (h : IO.FS.Stream) (out : IO.FS.Stream) : IO Unit := do
   if line.isEmpty || line.startsWith "#" then
     loop h out
   else
-    let (obs, tags) := runLine line
+    -- `big=1`: a document with so many items that only the implementation-side oracles run
+    -- (the model's per-item fuel computation is quadratic there); both sides print `BIG`
+    let (obs, tags) := if (line.splitOn " big=1").length > 1 then ("BIG", "big=1") else runLine line
     out.putStrLn s!"{obs}\t{tags}"
     loop h out
 
